@@ -116,6 +116,9 @@ class Walker:
                 a = [n.attr]
             elif isinstance(n, ast.Name) and isinstance(n.ctx, ast.Load):
                 a = ([self.alias[n.id]] if n.id in self.alias else []) + sorted(self.lsrc.get(n.id, ()))
+            elif isinstance(n, ast.Call) and isinstance(n.func, ast.Name) and n.func.id == "getattr" and len(n.args) >= 2 \
+                    and isinstance(n.args[0], ast.Name) and n.args[0].id == "self" and isinstance(n.args[1], ast.Constant):
+                a = [str(n.args[1].value)]                      # getattr(self, "a"[, default])
             for x in a or []:
                 if x not in out and x != "__dict__":
                     out.append(x)
